@@ -142,7 +142,10 @@ class World:
         return p
 
     def realname(self, name):
-        """a resource name may embed an absolute symbolic path after `//` (the F-X04a stream)"""
+        """a resource name may embed an absolute symbolic path after `//` (the F-X04a regression stream), or be
+        `@abs:/T/…` = that absolute path without its leading slash (what a request path can spell)"""
+        if name.startswith('@abs:/T/'):
+            return self.realpath(name[5:]).lstrip('/')
         i = name.find('//T/')
         if i >= 0:
             return name[:i + 1] + self.realpath(name[i + 1:])
@@ -225,8 +228,12 @@ def query_impl(W, registry, pkg, name, static_names=None):
     real, rname = W.real.get(pkg, pkg), W.realname(name)
     out = {}
     p = {}
+
+    def symf(s):
+        # `@abs:` names are realised as scratch paths: put the symbolic name back before mapping the roots
+        return W.sym(s.replace(rname, name) if name.startswith('@abs:') and isinstance(s, str) else s)
     try:
-        p['fn'] = ['ok', W.sym(pkg_resources.resource_filename(real, rname))]
+        p['fn'] = ['ok', symf(pkg_resources.resource_filename(real, rname))]
     except Exception as e:
         p['fn'] = _err(e)
     p['st'] = _read(lambda: pkg_resources.resource_stream(real, rname))
@@ -251,7 +258,7 @@ def query_impl(W, registry, pkg, name, static_names=None):
             except Exception as e:
                 return _err(e)
             return None if r is None else conv(r)
-        o['fn'] = opt(lambda: po.get_filename(rname), lambda r: ['ok', W.sym(r)])
+        o['fn'] = opt(lambda: po.get_filename(rname), lambda r: ['ok', symf(r)])
         o['st'] = opt(lambda: po.get_stream(rname), lambda s: _read(lambda: s))
         o['sg'] = opt(lambda: po.get_string(rname), lambda s: ['ok', s.decode('utf-8').lstrip('#')])
         o['has'] = opt(lambda: po.has_resource(rname), lambda b: ['ok', bool(b)])
@@ -260,7 +267,7 @@ def query_impl(W, registry, pkg, name, static_names=None):
         out['o'] = o
     # the descriptor of path.py must describe the same place
     d = AssetResolver(None).resolve(real + ':' + rname)
-    dd = {'fn': guard(lambda: W.sym(d.abspath())), 'st': _read(d.stream), 'has': guard(lambda: bool(d.exists())),
+    dd = {'fn': guard(lambda: symf(d.abspath())), 'st': _read(d.stream), 'has': guard(lambda: bool(d.exists())),
           'isd': guard(lambda: bool(d.isdir())), 'ls': _ls(d.listdir, W)}
     want = dict(p, fn=['ok', W.sym(os.path.abspath(W.realpath(p['fn'][1])))] if p['fn'][0] == 'ok' else p['fn'])
     bad = [k for k in dd if dd[k] != want[k]]
@@ -269,10 +276,26 @@ def query_impl(W, registry, pkg, name, static_names=None):
     return out
 
 
-def static_probe(W, config, queries):
+def static_probe(W, config, queries, root=False):
     """serve pa:static/ through a real router; {name: [status, body]} for the queries below static/ that a URL can spell"""
     from pyramid.request import Request
     out = {}
+    if root:
+        # a static view on the package-root spec `pa:`: every URL-spellable query name of pa, as a request path
+        names = [n for p, n in queries if p == 'pa' and n and all(seg not in ('', '.', '..') for seg in W.realname(n).split('/'))
+                 and not any(c in n for c in '\\\x00%?#')]
+        if not names:
+            return out
+        config.add_static_view('svr', W.real['pa'] + ':')
+        app = config.make_wsgi_app()
+        for n in names:
+            req = Request.blank('/svr/' + urllib.parse.quote(W.realname(n)))
+            try:
+                resp = req.get_response(app)
+                out[n] = [resp.status_int, resp.body.decode('utf-8', 'replace').lstrip('#') if resp.status_int == 200 else '']
+            except Exception as e:
+                out[n] = [500, 'exception ' + type(e).__name__]
+        return out
     names = [n for p, n in queries if p == 'pa' and n.startswith('static/') and n[7:] and
              all(seg not in ('', '.', '..') for seg in n[7:].split('/')) and '\\' not in n and '\x00' not in n and '%' not in n and '?' not in n and '#' not in n]
     if not names:
@@ -331,7 +354,7 @@ def impl_serve(case, realm):
                 kind = 'import' if isinstance(e.evalue, ImportError) else 'other:' + type(e.evalue).__name__
                 return {'fail': ['commit', start + count() - before, kind]}
         if case.get('static'):
-            extra['static'] = static_probe(W, config, case['queries'])
+            extra['static'] = static_probe(W, config, case['queries'], root=bool(case.get('static_root')))
     else:
         reg = Registry('x04')
         mod = W.mods[case['pkg']]
@@ -565,8 +588,6 @@ def check_serve(case, got, mo):
                 viol = {'case': case, 'impl': {'query': [pkg, name], 'provider': p, 'fields': bad}, 'expected': e['p'],
                         'detail': 'the resource served for %s:%s is not that of the latest matching declaration that has it '
                                   '(else the package\'s own), or the provider methods disagree about the place' % (pkg, name)}
-                if e['fs_escape'] and not [k for k in bad if k.startswith('descriptor')]:
-                    viol['finding'] = 'F-X04a'
                 break
         if viol is None and 'static' in got:
             for (pkg, name), e in zip(case['queries'], exp):
@@ -808,13 +829,19 @@ def gen_spec(rng, trees):
 
 
 def fs_escape_case(rng, trees):
-    """F-X04a stream: a directory override with an absolute-path source and a resource name with `//` after the directory"""
+    """F-X04a regression stream (fixed by 3e07f6a): a directory override with an absolute-path source and a resource name whose
+    remainder begins with `/`, directly and through a static view on the package root"""
     tree = dict(rng.choice(trees))
     tree['fs1'] = sorted(set(tree.get('fs1', []) + ['tpl/a.pt']))
     tree['fs2'] = sorted(set(tree.get('fs2', []) + ['secret.txt']))
     tree = clean_tree(tree)
-    return {'op': 'serve', 'tree': tree, 'mode': 'app', 'batches': [[['pa:templates/', '/T/fs1/tpl']]], 'static': False,
-            'queries': [['pa', 'templates//T/fs2/secret.txt'], ['pa', 'templates/a.pt']]}
+    if rng.random() < 0.5:
+        return {'op': 'serve', 'tree': tree, 'mode': 'app', 'batches': [[['pa:templates/', '/T/fs1/tpl']]], 'static': False,
+                'queries': [['pa', 'templates//T/fs2/secret.txt'], ['pa', 'templates/a.pt']]}
+    # the request-reachable form: a static view on the package root + the whole package overridden with a directory
+    return {'op': 'serve', 'tree': tree, 'mode': 'app', 'batches': [[[rng.choice(['pa', 'pa:']), rng.choice(['/T/fs1/tpl/', '/T/fs1/tpl'])]]],
+            'static': True, 'static_root': True,
+            'queries': [['pa', '@abs:/T/fs2/secret.txt'], ['pa', '/T/fs2/secret.txt'], ['pa', 'a.pt'], ['pa', 'b.pt'], ['pa', 'templates/a.pt']]}
 
 
 # ------------------------------------------------------------------------------------------------
